@@ -190,7 +190,12 @@ fn any_station(kind: u8, napps: usize, now: crate::time::Instant) -> FdlActiveSt
         2 => State::ClaimToken { step: match kani::any::<u8>() % 4 { 0 => ClaimTokenStep::FirstToken, 1 => { kani::assume(f.token_ring.ready_for_ring()); ClaimTokenStep::SecondToken }, 2 => { kani::assume(f.token_ring.ready_for_ring()); ClaimTokenStep::Scan },
                 _ => { kani::assume(f.token_ring.ready_for_ring()); kani::assume(addr < hsa && addr != ts); f.gap_state = GapState::DoPoll { current_address: addr }; ClaimTokenStep::ScanAwaitResponse { address: addr } } } },
         3 => State::UseToken { data: any_use_data(napps), first_cycle_done: kani::any() },
-        4 => State::AwaitDataResponse { address: addr, data: any_use_data(napps) },
+        4 => {
+            // AwaitDataResponse is entered from UseToken, after the hold-time deadline of this visit was computed
+            let data = any_use_data(napps);
+            f.last_token_time = data.token_time;
+            State::AwaitDataResponse { address: addr, data }
+        }
         5 => State::PassToken { do_gap: if kani::any() { DoGap::Yes } else { DoGap::No }, attempt: any_attempt() },
         6 => State::CheckTokenPass { attempt: any_attempt() },
         _ => { kani::assume(addr < hsa && addr != ts); f.gap_state = GapState::DoPoll { current_address: addr }; State::AwaitStatusResponse { address: addr } }
@@ -469,6 +474,14 @@ step_harness!(fdl_step_await_data, 4, |f0, f, phy, now, apps, napps| {
         if slot_expired(f0, phy, now) {
             assert!(me.to_calls == 1);
             assert!(matches!(f.state, State::UseToken { .. } | State::AwaitDataResponse { .. } | State::PassToken { .. }));
+            // C13.rule: the cycle that just timed out was this visit's guaranteed cycle; past the deadline no further
+            // cycle is started and the token is passed on
+            assert!(f.end_token_hold_time == f0.end_token_hold_time);
+            if now >= f0.end_token_hold_time {
+                assert!(apps[0].tx_calls + apps[1].tx_calls == 0 && phy.tx_count == 0);
+                assert!(f.state == (State::PassToken { do_gap: DoGap::Yes, attempt: PassTokenAttempt::First }));
+            }
+            if let State::UseToken { first_cycle_done, .. } = f.state { assert!(first_cycle_done); }
         } else {
             assert!(me.to_calls == 0 && f.state == f0.state && phy.tx_count == 0);
         }
